@@ -964,7 +964,7 @@ def optional_in_sized(rng, rust_only=True):
         endian = rng.choice(["little", "big"])
         decls = ["struct In%d {\n  u: 8,\n  v: 16\n}\n" % i,
                  "struct Dy%d {\n  _count_(w): 8,\n  w: 8[]\n}\n" % i,
-                 "enum Eo%d : 16 {\n  A = 1,\n  B = 0x200,\n  Z = ..\n}\n" % i]
+                 "enum Eo%d : %d {\n  A = 1,\n  B = 0x20,\n  Z = ..\n}\n" % (i, [24, 40, 16, 56, 48, 8][(i + rng.randrange(2)) % 6])]
         kinds = ["In%d" % i, "Dy%d" % i, "Eo%d" % i, "%d" % rng.choice([8, 24, 32])]
         rng.shuffle(kinds)
         def opt_fields(tag, n):
@@ -977,10 +977,57 @@ def optional_in_sized(rng, rust_only=True):
                      (i, sw, rng.choice(["", ",\n  crc: 16"])))
         decls.append("packet Sc%d : Sp%d (k = %d) {\n  %s,\n  t: 8\n}\n" % (i, i, i + 1, ",\n  ".join(opt_fields("a", rng.choice([1, 2, 3])))))
         # (b) struct elements of a size-delimited array
-        decls.append("struct Se%d {\n  %s\n}\n" % (i, ",\n  ".join(opt_fields("b", rng.choice([1, 2])))))
+        decls.append("struct Se%d {\n  %s\n}\n" % (i, ",\n  ".join(opt_fields("b", rng.choice([2, 3, 4])))))
         decls.append("packet Sa%d {\n  _size_(x): %d,\n  x: Se%d[],\n  z: 8\n}\n" % (i, rng.choice([8, 16]), i))
         if rust_only and rng.random() < 0.7:
             decls.append("packet Sx%d {\n  _count_(y): 4,\n  _elementsize_(y): 4,\n  y: Se%d[]\n}\n" % (i, i))
+        out.append("%s_endian_packets\n\n%s" % (endian, "\n".join(decls)))
+    return out
+
+
+def degenerate(rng):
+    """Well-formed descriptions around a type of size ZERO (an empty struct): as a field, as the element of arrays of
+    every shape, with and without `_padding_`, optional, inside a child.  Sizes of 0 are where divisions, remainders and
+    `chunks(n)` of the analyzer and the generators go wrong.  Returns PDL texts."""
+    out = []
+    for i in range(2):
+        endian = rng.choice(["little", "big"])
+        decls = ["struct Zs%d {\n}\n" % i]
+        fs = []
+        shapes = ["[3]", "[]c", "[]s", "[]"]
+        rng.shuffle(shapes)
+        for n, sh in enumerate(shapes[:rng.choice([2, 3])]):
+            nm = "z%d_%d" % (i, n)
+            if sh == "[]c":
+                fs.append("_count_(%s): 8" % nm)
+            if sh == "[]s":
+                fs.append("_size_(%s): 8" % nm)
+            fs.append("%s: Zs%d%s" % (nm, i, "[3]" if sh == "[3]" else "[]"))
+            if rng.random() < 0.6 and sh != "[]":
+                fs.append("_padding_[%d]" % rng.choice([1, 4, 8]))
+            if sh == "[]":
+                break
+        head = ["t%d: 8" % i] if rng.random() < 0.7 else []
+        decls.append("packet Zp%d {\n  %s\n}\n" % (i, ",\n  ".join(head + fs)))
+        decls.append("packet Zt%d {\n  a: 8,\n  m: Zs%d,\n  b: 8\n}\n" % (i, i))
+        out.append("%s_endian_packets\n\n%s" % (endian, "\n".join(decls)))
+    return out
+
+
+def sized_body(rng, with_children=True):
+    """`_body_` delimited by `_size_(_body_)` (the other spelling of a sized payload): alone, followed by static fields,
+    with a size modifier on the size-field side only via `_payload_`, and with children.  Returns PDL texts."""
+    out = []
+    for i in range(2):
+        endian = rng.choice(["little", "big"])
+        w = rng.choice([8, 16])
+        tail = rng.choice([[], ["crc%d: 16" % i], ["t%d: 8" % i, "u%d: 8[2]" % i]])
+        head = rng.choice([["k%d: 8" % i], ["k%d: 4" % i, "f%d: 4" % i]])
+        decls = ["packet Sb%d {\n  %s\n}\n" % (i, ",\n  ".join(head + ["_size_(_body_): %d" % w, "_body_"] + tail))]
+        if with_children:
+            decls.append("packet Sb%dc : Sb%d (k%d = %d) {\n  x: 8,\n  y: 16[]\n}\n" % (i, i, i, rng.randrange(1, 16)))
+        decls.append("packet Sp%db {\n  _size_(_payload_): %d,\n  n%d: 8,\n  _payload_%s\n}\n" %
+                     (i, w, i, rng.choice(["", " : [+1]", " : [+2]"])))
         out.append("%s_endian_packets\n\n%s" % (endian, "\n".join(decls)))
     return out
 
